@@ -39,6 +39,11 @@ class LeakMixin:
             v.append(Violation(P, clause, f"{self.side} {ev} ({out['pre_step']} -> {out['post_step']}, {out['queued']} PDUs queued on entry): {msg}",
                                side=self.side, **d))
 
+        h = getattr(st, ent_key).h
+        if h.num_packets_ready != len(h._pdus_to_be_sent):
+            # the caller learns from packets_ready / num_packets_ready whether it has to retrieve PDUs: a counter that disagrees with the
+            # queue makes the next 'unretrieved PDUs' error (or a retrieval that yields nothing) the library's fault, not the caller's
+            bad("C10.packet_counter", f"num_packets_ready is {h.num_packets_ready} but {len(h._pdus_to_be_sent)} PDUs are queued", ev=ev[0])
         if not e:
             return v
         if not e["protocol"]:
